@@ -890,6 +890,7 @@ def corpus_checks(ctx, tier):
                     break
     stats["seconds"]["fixed"] = round(_t.time() - ctx.t0, 1)
     call_family_checks(ctx, tier, stats, fails)
+    fmp_family_checks(ctx, tier, stats, fails)
     stats["seconds"]["call_family"] = round(_t.time() - ctx.t0, 1)
     pass_corpus_checks(ctx, tier, stats, fails)
     stats["seconds"]["pass_corpus"] = round(_t.time() - ctx.t0, 1)
@@ -944,6 +945,47 @@ def pass_corpus_checks(ctx, tier, stats, fails):
                           + tv.fail[0]["instruction"][:80], {"config": cfg.name, "source": src, "failures": tv.fail[:3]}))
     stats["pass_corpus"] = st
 
+
+
+def fmp_family_checks(ctx, tier, stats, fails):
+    """deep-stack functions that ALSO allocate dynamically (the three front-end producers of `dalloca`: raw_call(t, msg.data),
+    create_copy_of, create_from_blueprint): the assembler constant __initial_fmp__ read from the emitted assembly must lie at or
+    above every static allocation and every spill slot handed out (c14s_frames.FrameRecorder._check_initial_fmp)."""
+    from vyper.compiler.phases import CompilerData
+    from vyper.compiler.settings import anchor_settings
+    from vlib import c14s_frames as FR
+    from vlib import configs
+
+    rnd = ctx.rng("fmpfamily")
+    stats["fmp_family_compiles"] = 0
+    stats["fmp_consts_checked"] = 0
+    stats["fmp_family_spill_slots"] = 0
+    for k in range(2 if tier == "quick" else 8):
+        n = rnd.choice([18, 20, 22, 24, 28])
+        dyn = ["raw_call(t, msg.data)", "c: address = create_copy_of(t)", "d: address = create_from_blueprint(t, p, code_offset=1)"][k % 3]
+        lines = [f"s{i}: public(uint256)" for i in range(n)]
+        lines.append("\n@external\ndef f(t: address, p: uint256) -> uint256:")
+        lines += [f"    x{i}: uint256 = self.s{i}" for i in range(n)]
+        lines.append("    " + dyn)
+        lines.append("    r: uint256 = " + " + ".join(f"x{i} * {i + 2}" for i in range(0, n, 2)))
+        lines.append("    raw_call(t, msg.data)")
+        lines.append("    r += " + " + ".join(f"x{i} * {i + 3}" for i in range(n)))
+        lines.append("    return r")
+        src = "\n".join(lines) + "\n"
+        for cfg in [configs.Config(True, lvl, "cancun") for lvl in ("gas", "codesize", "O3")]:
+            try:
+                with FR.FrameRecorder() as fr:
+                    cd = CompilerData(src, settings=cfg.settings())
+                    with anchor_settings(cd.settings):
+                        cd.assembly_runtime
+            except Exception as e:  # noqa
+                fails.append(("failing-input", f"venom back end crashes on a deep-stack contract with a dynamic allocation under {cfg.name}: "
+                              f"{type(e).__name__}: {e}"[:300], {"config": cfg.name, "source": src, "error": f"{type(e).__name__}: {e}"}))
+                continue
+            stats["fmp_family_compiles"] += 1
+            stats["fmp_consts_checked"] += getattr(fr, "n_fmp_consts", 0)
+            stats["fmp_family_spill_slots"] += fr.n_slots
+            _frame_fails(fr, cfg, src, stats, fails)
 
 def call_family_checks(ctx, tier, stats, fails):
     """internal-call convention on real compiles: seeded contracts with internal functions of 0..20 word arguments,
